@@ -59,6 +59,7 @@ func DumpDB(db chain.DB) map[string]map[string][]byte {
 type recDB struct {
 	chain.DB
 	snapshots bool
+	durable   chain.DB       // the layer whose content survives the process (the DB itself unless it is a cache over one)
 	Snaps     []*chain.MemDB // committed image after each Flush
 	Flushes   int
 	onFlush   func()
@@ -68,7 +69,7 @@ func (r *recDB) Flush() error {
 	err := r.DB.Flush()
 	r.Flushes++
 	if r.snapshots {
-		r.Snaps = append(r.Snaps, CopyDB(r.DB))
+		r.Snaps = append(r.Snaps, CopyDB(r.durable))
 	}
 	if r.onFlush != nil {
 		r.onFlush()
@@ -177,11 +178,27 @@ type RNode struct {
 	CM     *chain.Manager
 	Notifs int
 	nmu    sync.Mutex
+	Backend string
+}
+
+// Reopen opens a fresh node of the same backend on a copy of a committed image.
+func (n *RNode) Reopen(snap *chain.MemDB, snapshots bool) (*RNode, error) {
+	return OpenNodeOn(n.W, CopyDB(snap), n.Backend, snapshots)
 }
 
 // OpenNode opens (or initialises) a node on db.
 func OpenNode(w *mat.World, db chain.DB, snapshots bool) (*RNode, error) {
-	n := &RNode{W: w, Raw: db, DB: &recDB{DB: db, snapshots: snapshots}}
+	return OpenNodeOn(w, db, "mem", snapshots)
+}
+
+// OpenNodeOn opens a node on db directly (backend "mem") or on a chain.CacheDB over db (backend
+// "cache": what survives the process is then db, not what the cache shows).
+func OpenNodeOn(w *mat.World, db chain.DB, backend string, snapshots bool) (*RNode, error) {
+	durable := db
+	if backend == "cache" {
+		db = chain.NewCacheDB(db)
+	}
+	n := &RNode{W: w, Raw: db, Backend: backend, DB: &recDB{DB: db, durable: durable, snapshots: snapshots}}
 	st, cs, err := chain.NewDBStore(n.DB, w.N, w.Genesis, nil)
 	if err != nil {
 		return nil, err
@@ -190,15 +207,17 @@ func OpenNode(w *mat.World, db chain.DB, snapshots bool) (*RNode, error) {
 	n.DB.onFlush = n.Store.noteFlush
 	if snapshots && len(n.DB.Snaps) == 0 {
 		// reopened database: the committed image is what we were given
-		n.DB.Snaps = append(n.DB.Snaps, CopyDB(db))
+		n.DB.Snaps = append(n.DB.Snaps, CopyDB(durable))
 	}
 	n.CM = chain.NewManager(n.Store, cs)
 	n.CM.OnReorg(func(types.ChainIndex) { n.nmu.Lock(); n.Notifs++; n.nmu.Unlock() })
 	return n, nil
 }
 
-func NewNode(w *mat.World, snapshots bool) *RNode {
-	n, err := OpenNode(w, chain.NewMemDB(), snapshots)
+func NewNode(w *mat.World, snapshots bool) *RNode { return NewNodeOn(w, "mem", snapshots) }
+
+func NewNodeOn(w *mat.World, backend string, snapshots bool) *RNode {
+	n, err := OpenNodeOn(w, chain.NewMemDB(), backend, snapshots)
 	if err != nil {
 		panic(err)
 	}
@@ -309,15 +328,18 @@ type LedProj struct {
 // Project computes the projection of the real node for tree t (names nm, heights 0..maxH).
 func (n *RNode) Project(t *mat.Tree, nm *mat.Names, maxH int) Projection {
 	var p Projection
-	ids := map[types.BlockID]int{}
-	for _, nd := range t.Nodes {
-		ids[nd.Block.ID()] = nd.ID
-	}
+	ids := t.IDMap()
 	for _, nd := range t.Nodes {
 		id := nd.Block.ID()
 		_, hasHdr := n.Store.Header(id)
-		_, bs, hasBody := n.Store.Block(id)
+		stored, bs, hasBody := n.Store.Block(id)
+		twin := nd.Alias != nd.ID
 		switch {
+		case hasBody && !nd.SameBody(stored):
+			// the Blocks bucket holds another body for this ID (an ID twin of this node)
+			p.Blk = append(p.Blk, "none")
+		case !hasBody && twin:
+			p.Blk = append(p.Blk, "none")
 		case hasBody && bs != nil:
 			p.Blk = append(p.Blk, "supp")
 		case hasBody:
@@ -329,7 +351,7 @@ func (n *RNode) Project(t *mat.Tree, nm *mat.Names, maxH int) Projection {
 		}
 		cs, ok := n.CM.State(id)
 		switch {
-		case !ok:
+		case !ok || twin: // states are keyed by ID: reported on the node the ID is named after
 			p.Sta = append(p.Sta, "none")
 		case nd.L != nil && bytes.Equal(mat.StateBytes(cs), mat.StateBytes(nd.L.CS)):
 			p.Sta = append(p.Sta, "full")
